@@ -757,7 +757,12 @@ func genC14(g *gen, seed int64) *Program {
 	}
 	useRaw := g.p(0.5)
 	r.Handler = []Op{{K: "decode"}}
-	if cancelled {
+	serverTimeout := false
+	if !cancelled && (code == 1 || code == 4) && g.p(0.7) {
+		// only the propagated GRPC-Timeout elapses; the client never cancels
+		serverTimeout, useRaw = true, true
+	}
+	if cancelled || serverTimeout {
 		r.Handler = append(r.Handler, Op{K: "waitctx"})
 	}
 	ret := Op{K: "return", Msg: g.msg()}
@@ -768,7 +773,11 @@ func genC14(g *gen, seed int64) *Program {
 	r.Handler = append(r.Handler, ret)
 	if useRaw {
 		r.RawClient = true
-		r.Client = []Op{{K: "raw", Raw: &RawReq{Method: "POST", Path: r.Call, Hdrs: []KV{{K: "Content-Type", V: RawStr(httpgrpc.UnaryRpcContentType_V1)}}, Body: RawStr(mustMarshal((&MsgSpec{Tag: 1, Size: 2}).Build()))}}}
+		hd := []KV{{K: "Content-Type", V: RawStr(httpgrpc.UnaryRpcContentType_V1)}}
+		if serverTimeout {
+			hd = append(hd, KV{K: "GRPC-Timeout", V: RawStr(fmt.Sprintf("%dm", 5+g.pick(200)))})
+		}
+		r.Client = []Op{{K: "raw", Raw: &RawReq{Method: "POST", Path: r.Call, Hdrs: hd, Body: RawStr(mustMarshal((&MsgSpec{Tag: 1, Size: 2}).Build()))}}}
 	} else {
 		r.Client = []Op{{K: "invoke", Msg: g.msg()}}
 	}
@@ -812,7 +821,7 @@ func oracleC14(s *Sim) {
 		}
 		s.stats.Probes["C14-relevant"]++
 		code := codes.Code(uint32(h.Code))
-		reqCancelled := v.ctxSeq != 0 && v.ctxSeq < v.hReturn.Seq
+		reqCancelled := v.ctxSeq != 0 && v.ctxSeq < v.hReturn.Seq && v.rs.ctxCause != "end"
 		// wire status of the server's reply
 		var raw *Event
 		for _, ev := range v.ev {
@@ -834,12 +843,15 @@ func oracleC14(s *Sim) {
 				}
 				if st < 400 {
 					v.fail("C14", fmt.Sprintf("error-code-with-success-status|%s", code), "code %s rendered as HTTP %d", code, st)
-				} else if st != want && !(st == 499 && (code == codes.Canceled || code == codes.DeadlineExceeded)) {
+				} else if st != want && !(st == 499 && (code == codes.Canceled || code == codes.DeadlineExceeded) && reqCancelled) {
 					v.fail("C14", fmt.Sprintf("table-mismatch|%s|got-%d", code, st), "code %s rendered as HTTP %d, the documented table says %d", code, st, want)
 				}
 				if st == 499 && !(code == codes.Canceled || code == codes.DeadlineExceeded) {
 					v.fail("C14", fmt.Sprintf("499-for-other-code|%s", code), "code %s rendered as 499", code)
 				}
+			}
+			if done := raw.MD["x-req-ctx-done"]; len(done) > 0 && done[0] == "true" && !reqCancelled {
+				v.fail("C14", "renderer-given-a-done-context", "the error renderer was given a request context that is done although the client never cancelled the request")
 			}
 			gs := raw.Flags["grpc-status"]
 			if h.Class == "status" && !strings.HasPrefix(gs, fmt.Sprintf("%d:", h.Code)) && uint32(h.Code) < 1<<31 && h.Code != 0 {
@@ -863,7 +875,7 @@ func oracleC14(s *Sim) {
 			if ws == 499 && !isCtxCode {
 				v.fail("C14", fmt.Sprintf("499-for-other-code|%s", code), "code %s rendered as 499", code)
 			}
-			if ws == 499 && !reqCancelled && v.rs.ctxDoneSeq == 0 {
+			if ws == 499 && !reqCancelled {
 				v.fail("C14", "499-without-cancelled-request", "code %s rendered as 499 although the request was never cancelled", code)
 			}
 			if ws < 400 && h.Code != 0 {
